@@ -514,8 +514,8 @@ def make_cases(ctx):
     """a value related to v: equal in another representation (most often), a near miss, or unrelated."""
     k = rng.random()
     for _ in range(30):
-      if k < .50: w, how = canon(g.variant(v)), 'variant'
-      elif k < .80: w, how = canon(g.mutant(v)), 'mutant'
+      if k < .56: w, how = canon(g.variant(v)), 'variant'
+      elif k < .83: w, how = canon(g.mutant(v)), 'mutant'
       else: w, how = fresh(g, rng.choice([0, 1, 2, 3])), 'independent'
       if buildable(w): return w, how
     return v, 'variant'
@@ -651,12 +651,14 @@ def run(ctx):
   model = ctx.model_run(wire)
   # hash collisions: the model compares pre-images; the implementation compares integers. Different pre-images may collide
   # (hash(-1) == hash(-2) in CPython); such a case is not a disagreement.
-  collisions = 0
+  collisions = 0; coll_samples = []
   for w, io, mo in zip(wire, impl, model):
     if w[0] == 0 and mo is not None and isinstance(mo, list) and len(mo) >= 5 and isinstance(io[4], list):
       if io[4][:2] == [0, 0] and mo[4] == [0, 0, 0] and io[4][2] == 1:
         collisions += 1; io[4][2] = 0
-  ctx.extra['hash_collisions_tolerated'] = collisions
+        if len(coll_samples) < 5: coll_samples.append([show(w[1]), show(w[2])])
+  ctx.extra['hash_collisions_tolerated'] = dict(count=collisions, samples=coll_samples,
+      note='pairs whose hash pre-images differ in the model but whose CPython hashes coincide (e.g. hash(-1) == hash(-2)); not a disagreement')
   desc = {id(w): cases[o] for w, o in zip(wire, owner)}
   def describe(w):
     c = desc.get(id(w))
